@@ -9,6 +9,7 @@ import (
 	"os"
 
 	"verifharness/envcheck"
+	"verifharness/dinvoke"
 	"verifharness/gate"
 	"verifharness/sanitize"
 	"verifharness/stack"
@@ -85,6 +86,29 @@ func main() {
 			if err := rec.WriteNDJSON(fmt.Sprintf("%s/%d.ndjson", *out, k), evs); err != nil {
 				die("write: %v", err)
 			}
+		}
+	case "diwalk":
+		f, err := walkfile.Load(*in)
+		if err != nil {
+			die("load: %v", err)
+		}
+		rep := dinvoke.ReplayWalk(f, *maxDiv)
+		if err := rep.Write(*out); err != nil {
+			die("write: %v", err)
+		}
+	case "dicopy":
+		b, err := os.ReadFile(*in)
+		if err != nil {
+			die("read: %v", err)
+		}
+		var cases []dinvoke.CopyCase
+		if err := json.Unmarshal(b, &cases); err != nil {
+			die("decode: %v", err)
+		}
+		rep := dinvoke.RunCopy(cases)
+		ob, _ := json.MarshalIndent(rep, "", " ")
+		if err := os.WriteFile(*out, ob, 0o644); err != nil {
+			die("write: %v", err)
 		}
 	case "run":
 		if *quiet {
